@@ -1,6 +1,6 @@
 """C18 — display:none hides exactly the matched subtrees (two structural clauses)."""
 from ..facts import AnchorMissing, callee_def, op_place, op_const, is_bare
-from ..util import (ends, site, fn_key, callee_method, require, has_call, has_field, find_dispatch,
+from ..util import (ends, site, fn_key, callee_method, require, has_call, has_field, find_dispatch, direct_place,
                     transitive_closures, closure_bodies_created_in, edge_is_true, src_field, edges_where,
                     unreachable_without_edges, direct_field)
 from .. import options
@@ -170,6 +170,37 @@ def rule_a(ctx):
                         arms |= {dnames.get(v) for v, tb in sfp.term(pdisp)["targets"] if r[1] in sfp.reach_from(tb, avoid=[pdisp])}
                 if arms and arms <= {"Height", "MaxHeight"}:
                     govs.add("height_zero")
+                    # zero height means a length whose *number* is 0, in any unit: between the declaration match and
+                    # the store only the Height variant test and `number == 0.0` may decide
+                    for r in sfp.defs()[fl]:
+                        if not (r[0] == "stmt" and (op_const((r[3].get("rv") or {}).get("use") or {}) or {}).get("v") == "true"):
+                            continue
+                        conds = []
+                        for (a, s) in sfp.cdeps_transitive(r[1]):
+                            if a == pdisp or not sfp.dominates(pdisp, a) or a not in sfp.reach_from(pdisp, avoid=[]) :
+                                continue
+                            if not any(a in sfp.reach_from(tb, avoid=[pdisp]) for _v, tb in sfp.term(pdisp)["targets"]):
+                                continue
+                            truth, src = edge_is_true(sfp, a, s)
+                            if src and src[0] == "discr":
+                                conds.append("variant-test")
+                            elif src and src[0] == "bin" and src[1]["bin"] in ("Eq", "Ne"):
+                                ks = [op_const(src[1]["a"]), op_const(src[1]["b"])]
+                                other = src[1]["b"] if ks[0] is not None else src[1]["a"]
+                                zero = any(k is not None and k.get("int") == 0 and str(k.get("ty", "")).startswith("f") for k in ks)
+                                pl0 = direct_place(sfp, other)
+                                fl_ = [e for e in (pl0["p"] if pl0 else []) if isinstance(e, dict) and "f" in e]
+                                num = bool(fl_) and fl_[-1]["f"] == 0 and str(fl_[-1].get("o", "")).endswith("Height::Length")
+                                conds.append("number==0" if (zero and num) else "other-comparison")
+                            elif src and src[0] == "call":
+                                conds.append("call:%s" % callee_method(src[1]))
+                            elif src and src[0] == "place":
+                                conds.append("flag")
+                            else:
+                                conds.append("other")
+                        ctx.check("number==0" in conds and all(c in ("variant-test", "number==0") for c in conds), "C18-A",
+                                  "height-zero:decided-by-number-only", r[3]["span"], sfp.id,
+                                  "height:0 must be recognised from the length's number alone (any unit); the store is governed by %s" % sorted(set(conds)))
                 elif arms and arms <= {"Overflow", "OverflowY"}:
                     govs.add("overflow_hidden")
                 else:
